@@ -126,7 +126,8 @@ def r16_2b(ctx: Ctx, rule="R16.2"):
                 sec_none = (o != neg)
             if cur and norm(tt).replace(" ", "") == "%sisnotNone" % cur:
                 sec_none = not (o != neg)
-        st = p.stmts()
+        from ..util import expand_path_aliases
+        st = expand_path_aliases(p.stmts())
         h_app = [x for x in st if norm(x) == "self['header'].append(%s)" % lv]
         s_app = [x for x in st if cur and norm(x) == "self[%s].append(%s)" % (cur, lv)]
         n += 1
